@@ -63,6 +63,28 @@ pub proof fn lemma_im_upsert<K, V>(s: Seq<(K, V)>, k: K, v: V)
     }
 }
 
+// in-place update of the value stored under an existing key (what get_mut / entry do)
+pub proof fn lemma_im_update_all<K, V>(s: Seq<(K, V)>, k: K)
+    requires im_unique(s), im_has(s, k)
+    ensures
+        forall|v: V| #![trigger s.update(im_idx(s, k), (k, v))] ({
+            let n = s.update(im_idx(s, k), (k, v));
+            im_unique(n) && im_has(n, k) && im_get(n, k) == v && im_idx(n, k) == im_idx(s, k)
+            && (forall|k2: K| k2 != k ==> (im_has(n, k2) == im_has(s, k2)) && (im_has(s, k2) ==> im_get(n, k2) == im_get(s, k2)))
+        }),
+{
+    assert forall|v: V| #![trigger s.update(im_idx(s, k), (k, v))] ({
+            let n = s.update(im_idx(s, k), (k, v));
+            im_unique(n) && im_has(n, k) && im_get(n, k) == v && im_idx(n, k) == im_idx(s, k)
+            && (forall|k2: K| k2 != k ==> (im_has(n, k2) == im_has(s, k2)) && (im_has(s, k2) ==> im_get(n, k2) == im_get(s, k2)))
+        }) by {
+        lemma_im_upsert(s, k, v);
+        assert(im_upsert(s, k, v) == s.update(im_idx(s, k), (k, v)));
+        let n = s.update(im_idx(s, k), (k, v));
+        lemma_im_idx(n, im_idx(s, k));
+    }
+}
+
 pub proof fn lemma_im_upsert_all<K, V>(s: Seq<(K, V)>, k: K)
     requires im_unique(s)
     ensures
